@@ -145,7 +145,7 @@ def run_case(cfg: Dict[str, Any], variants: List[Dict[str, Any]]) -> Dict[str, A
 
         def run(out: str, v: Dict[str, Any]) -> Dict[str, Any]:
             return procrun.run_pydoctor(argv_for(cfg, paths, out), root, hashseed=v.get('hashseed', 0),
-                                        tz=v.get('tz', 'UTC'), listing_seed=v.get('listing_seed'),
+                                        tz=v.get('tz', 'UTC'), listing_seed=v.get('listing_seed', -1),
                                         now=v.get('now', REF_NOW), source_date_epoch=sde)
         ref_out = os.path.join(root, 'out-ref')
         r0 = run(ref_out, {})
@@ -175,7 +175,7 @@ def run_case(cfg: Dict[str, Any], variants: List[Dict[str, Any]]) -> Dict[str, A
                     stats['fired'][dim] = stats['fired'].get(dim, 0) + 1
             if 'now' in v:
                 stats['now_values'].append(v['now'])
-            if v.get('listing_seed') is not None and not r.get('seam_stats', {}).get('listdir'):
+            if not r.get('seam_stats', {}).get('listdir'):
                 raise RuntimeError('listing seam did not fire')
             got = procrun.tree_digest(out)
             digest_parts.append(str(sorted(got.items())) + str(r['exit']))
